@@ -74,6 +74,8 @@ def h_flow(t, part):
         t.force(part['first'] if isinstance(part['first'], list) else [part['first']])
     hostile_undecodable = 0
     for step in range(part['n']):
+        bfr = worlds.encode_frames(w.P(packet.EVENT, data=['ev', b'bystander-bytes'], namespace='/a'))
+        w.recv('e2', bfr[0])            # a bystander is in the middle of a binary event while the offender acts
         before = bystander_view(w, by)
         ncalls = len(calls)
         kind = t.choice(3)
@@ -93,7 +95,8 @@ def h_flow(t, part):
             for _ in range(extra):
                 w.recv('e0', b'\x00\x01')
         elif kind == 1:
-            w.recv('e0', b'stray-binary-frame')
+            stray = [b'stray-binary-frame', b'1', b'0', b'5', b''][t.choice(5)]
+            w.recv('e0', stray)
         else:
             undecodable = True
             hostile_undecodable += 1
@@ -106,6 +109,8 @@ def h_flow(t, part):
                         'the offender holds %r; handlers ran %r' % (sorted(own), bad))
         if kind == 0 and data is BAD_INDEX and ptype in (5, 6) and new_calls:
             return Fail('hostile:undecodable-input-reached-handler:placeholder-index', repr(new_calls))
+        if kind == 1 and step == 0 and new_calls:
+            return Fail('hostile:undecodable-input-reached-handler:stray-binary', 'frame %r ran %r' % (stray, new_calls))
         if undecodable and part.get('strict_undecodable'):
             pass
         after = bystander_view(w, by)
@@ -115,6 +120,11 @@ def h_flow(t, part):
             return Fail('hostile:bystander-changed:%s' % ','.join(comp), repr(diff))
         if cb_fired:
             return Fail('hostile:bystander-callback-fired', repr(cb_fired))
+        # the bystander's binary event completes now
+        nb = len(calls)
+        w.recv('e2', bfr[1])
+        if calls[nb:] != [('ev', b2, (b'bystander-bytes',))]:
+            return Fail('hostile:bystander-binary-event-lost', 'after step %d: %r; contained %r' % (step, calls[nb:], w.eio.contained[-2:]))
         # bystander traffic in between
         w.send('e1', w.P(packet.EVENT, data=['ev', step], namespace='/'))
         if [c for c in calls[len(calls) - 1:]] != [('ev', b1, (step,))]:
